@@ -8,6 +8,7 @@ import Driver.IOMap
 import Driver.Topo
 import Driver.Hist
 import Driver.Fmm
+import Driver.Space
 
 open Driver
 
@@ -22,6 +23,7 @@ def step (line : String) : String :=
   | "solve" :: _ | "splitby" :: _ => Driver.Solve.handle toks
   | "alg" :: _ => Driver.Alg.handle toks
   | "fmmpmap" :: _ | "fmmsmap" :: _ | "fmmtidx" :: _ | "fmmmv" :: _ => Driver.Fmm.handle toks
+  | "space" :: _ => Driver.Space.handle toks
   | _ => "err bad-op"
 
 partial def loop (h : IO.FS.Stream) (out : IO.FS.Stream) : IO Unit := do
